@@ -15,6 +15,29 @@ trait Elem: PartialOrd + Copy + Num + NumCast + Debug + Send + Sync + 'static {
     /// largest / smallest value of the type (+-inf for floats)
     fn top() -> Self;
     fn bottom() -> Self;
+    /// third realisation: unit steps on a base so high that neighbouring values are not distinct
+    /// as f64 (64-bit integers only)
+    fn dense(_v: i64) -> Option<Self> {
+        None
+    }
+}
+impl Elem for u64 {
+    const NAME: &'static str = "u64";
+    fn from_i(v: i64) -> Self {
+        ((v + 100_000).max(0) as u64) * 1_000_000_007
+    }
+    fn nan() -> Option<Self> {
+        None
+    }
+    fn top() -> Self {
+        u64::MAX
+    }
+    fn bottom() -> Self {
+        0
+    }
+    fn dense(v: i64) -> Option<Self> {
+        Some((1u64 << 63) + (v + 100_000) as u64)
+    }
 }
 impl Elem for f64 {
     const NAME: &'static str = "f64";
@@ -74,6 +97,9 @@ impl Elem for i64 {
     }
     fn bottom() -> Self {
         i64::MIN
+    }
+    fn dense(v: i64) -> Option<Self> {
+        Some((1i64 << 60) + v)
     }
 }
 
@@ -188,17 +214,40 @@ fn show(rel: &[i8]) -> String {
 }
 
 fn check_word<T: Elem>(rel: &[i8], out: &mut JobOut, states: &mut BTreeSet<(MonoSpec, MonoSpec, i8)>) {
-    check_word_real::<T>(rel, false, out, states);
+    check_word_real::<T>(rel, 0, out, states);
     if !rel.is_empty() {
-        check_word_real::<T>(rel, true, out, states);
+        check_word_real::<T>(rel, 1, out, states);
+        if T::dense(0).is_some() {
+            check_word_real::<T>(rel, 2, out, states);
+        }
     }
 }
 
-fn check_word_real<T: Elem>(rel: &[i8], extreme: bool, out: &mut JobOut, states: &mut BTreeSet<(MonoSpec, MonoSpec, i8)>) {
-    let v: Vec<T> = if extreme { word_to_vec_extreme(rel) } else { word_to_vec(rel) };
+/// unit steps on the type's high base
+fn word_to_vec_dense<T: Elem>(rel: &[i8]) -> Vec<T> {
+    let mut v = vec![T::dense(0).unwrap()];
+    let mut acc = 0i64;
+    for &r in rel {
+        acc += match r {
+            -1 => 1,
+            0 => 0,
+            _ => -1,
+        };
+        v.push(T::dense(acc).unwrap());
+    }
+    v
+}
+
+fn check_word_real<T: Elem>(rel: &[i8], mode: u8, out: &mut JobOut, states: &mut BTreeSet<(MonoSpec, MonoSpec, i8)>) {
+    let extreme = mode == 1;
+    let v: Vec<T> = match mode {
+        1 => word_to_vec_extreme(rel),
+        2 => word_to_vec_dense(rel),
+        _ => word_to_vec(rel),
+    };
     let want = mono_spec(rel);
     for (form, got) in observe(&v) {
-        let form = if extreme { format!("{form}/extreme-values") } else { form.to_string() };
+        let form = if extreme { format!("{form}/extreme-values") } else if mode == 2 { format!("{form}/unit-steps-beyond-2^53") } else { form.to_string() };
         let form = form.as_str();
         out.evals += 1;
         out.transitions += rel.len() as u64;
@@ -378,7 +427,7 @@ fn runs_check<T: Elem>(len: usize, all3: bool, out: &mut JobOut, states: &mut BT
             for i in 1..len {
                 w[..i].fill(a);
                 w[i..].fill(b);
-                check_word_real::<T>(&w, false, out, states);
+                check_word_real::<T>(&w, 0, out, states);
             }
         }
     }
@@ -402,7 +451,7 @@ fn runs_check<T: Elem>(len: usize, all3: bool, out: &mut JobOut, states: &mut BT
                         w[..i].fill(a);
                         w[i..j].fill(b);
                         w[j..].fill(c);
-                        check_word_real::<T>(&w, false, out, states);
+                        check_word_real::<T>(&w, 0, out, states);
                     }
                 }
             }
@@ -466,6 +515,7 @@ fn body(ctx: &Ctx) -> (Summary, Meta) {
                     check_word::<i64>(w, &mut out, &mut st);
                     check_word::<u32>(w, &mut out, &mut st);
                     check_word::<u8>(w, &mut out, &mut st);
+                    check_word::<u64>(w, &mut out, &mut st);
                 });
                 if *len == 0 {
                     // the empty vector
@@ -515,7 +565,7 @@ fn body(ctx: &Ctx) -> (Summary, Meta) {
         sum.total.outcome(format!("impl={g:?},spec={w:?}"));
     }
     let meta = Meta {
-        rule: "every relation word over {<,=,>} up to the length bound, realised as prefix sums for f64/f32/i32/i64/u32/u8, each as contiguous array, every-2nd-element view of a poisoned array and reversed view; every non-empty NaN mask on every word up to the NaN bound (f64, f32); long words (one base relation + <= 2 deviations; NaN at every position); run-structured words (every word of 2 runs, and of 3 runs with all / selected boundaries) up to length 2080; every word also realised with the type's extreme values (+-inf, MIN/MAX) in place of its largest and smallest level. Oracle: classifier written from the statement (counts of <,=,>); NaN: never Rising. states = distinct (implementation result, spec class, last relation) triples reached = reachable states of the product of the implementation automaton and the spec automaton. Non-trivial = word of length >= 2 or NaN vector. Phase builder-validation: every relation word of length 2..4 (5) x every NaN mask handed to Interp1DBuilder.x, Interp2DBuilder.x / .y, and as the y (x) axis of a grid whose other axis is a valid view into the same allocation starting at the same element (row / column of one table, stride-0 broadcast): accepted iff strictly rising.".into(),
+        rule: "every relation word over {<,=,>} up to the length bound, realised as prefix sums for f64/f32/i32/i64/u32/u8/u64 (i64, u64 also with unit steps on a base beyond 2^53), each as contiguous array, every-2nd-element view of a poisoned array and reversed view; every non-empty NaN mask on every word up to the NaN bound (f64, f32); long words (one base relation + <= 2 deviations; NaN at every position); run-structured words (every word of 2 runs, and of 3 runs with all / selected boundaries) up to length 2080; every word also realised with the type's extreme values (+-inf, MIN/MAX) in place of its largest and smallest level. Oracle: classifier written from the statement (counts of <,=,>); NaN: never Rising. states = distinct (implementation result, spec class, last relation) triples reached = reachable states of the product of the implementation automaton and the spec automaton. Non-trivial = word of length >= 2 or NaN vector. Phase builder-validation: every relation word of length 2..4 (5) x every NaN mask handed to Interp1DBuilder.x, Interp2DBuilder.x / .y, and as the y (x) axis of a grid whose other axis is a valid view into the same allocation starting at the same element (row / column of one table, stride-0 broadcast): accepted iff strictly rising.".into(),
         bounds: format!("relation words of length 0..{maxlen} (exhaustive: {} words); NaN masks on words of length <= {nanmax}; long words of lengths {:?}{}", (0..=maxlen).map(|l| 3u64.pow(l as u32)).sum::<u64>(), if quick { longs.clone() } else { vec![14, 130] }, if quick { "" } else { " (every length in the closed interval)" }),
         assumptions: vec![],
         extra: vec![("product_states".into(), Json::Arr(st.iter().map(|(g, w, l)| Json::str(&format!("{g:?}/{w:?}/{l}"))).collect()))],
